@@ -346,3 +346,14 @@ def replay_window(model, spec=None):
 
 
 REPLAYERS = dict(globals().get('REPLAYERS', {})); REPLAYERS['window'] = replay_window
+
+
+# ---------------------------------------------------------------- C12.g: the group admin's configure instruction hands each role to the key named for it (shared with C13.h)
+def t_group_roles(world):
+    import specs.C13 as C13
+    return C13.t_group_configure(world, 'C12.g')
+
+
+_t_gr = tasks
+def tasks(tier):
+    return _t_gr(tier) + [('group_roles', t_group_roles)]
